@@ -49,7 +49,7 @@ func generate(family string, seed uint64, tier string, index int) *Spec {
 		return nil
 	}
 	sp.Family = family
-	sp.Seed = seed ^ uint64(index)*0x9e3779b97f4a7c15
+	sp.Seed = (seed*1000003 + uint64(index)) & ((1 << 50) - 1)
 	return sp
 }
 
